@@ -60,34 +60,36 @@ theorem plain_wildsIn : ∀ {t : Tree}, Plain t → WildsIn noCtx t := by
   | hyb o x d c ih => intro h; exact ih h.2
 
 /-- a preprocessed plain formula that passes the support check is a legitimate top-level query -/
-theorem preprocessed_goodQ (E : Env) (t t' : Tree)
-    (h : rename (fun n => (E.G.label n).isSome) t = .ok t') (hp : Plain t) (hk : t'.numQuantVars ≤ E.G.k) :
-    GoodQ E noCtx E.G.unit0 t' E.G.unit0 [] := by
+theorem preprocessed_goodQ (C : CharClass) (hC : Lex.CharsOK C) (E : Env) (t t' : Tree)
+    (h : rename (fun n => (E.G.label n).isSome) t = .ok t') (hp : Plain t) (hk : t'.numQuantVars ≤ E.G.k)
+    (hv : Lex.TreeOK C t ∧ PropNamesOK t) :
+    GoodQ C E noCtx E.G.unit0 t' E.G.unit0 [] := by
   have hp' := renameRec_plain _ t [] [] t' h hp
   refine ⟨C07.rename_wellScoped _ t t' h _ hk, C07.rename_depth_names _ t t' h, Nat.zero_le _,
     hp'.domsIn noCtx, fun i l hil => by simp at hil, plain_wildsIn hp', C07.renameRec_propsOK _ t [] [] t' h,
-    unitOK_unit0 E, ?_⟩
+    unitOK_unit0 E, ?_, rename_treeOK hC _ t t' hv h⟩
   intro p _
   simp
 
-variable {E : Env} (hE : EnvOK E) (hG : GraphWF E.G)
-  (hKS : KeySem E noCtx E.G.unit0) (hKW : KeyWild E noCtx E.G.unit0) (hA : C12.GraphAsync E.G)
-include hE hG hKS hKW hA
+variable {C : CharClass} {E : Env} (hE : EnvOK E) (hG : GraphWF E.G)
+  (hC : Lex.CharsOK C) (hA : C12.GraphAsync E.G)
+include hE hG hC hA
 
 /-- MAIN: evaluating any list of preprocessed plain formulae the graph supports — with ANY duplicate map whose
 keys have at most one variable (as `mark_duplicates` produces), in particular with the real one — returns a
 result: none of the evaluator's panic sites (missing cache entry for a wild-card, missing domain set, symbolic
 variable out of range, empty restricted unit, reverse renaming) is reachable. -/
 theorem no_panic_trees (trees : List Tree) (D : DupMap)
-    (hq : ∀ t ∈ trees, GoodQ E noCtx E.G.unit0 t E.G.unit0 [])
-    (hD : ∀ key n, dupGet key D = some n → ∀ t U ds ren, GoodQ E noCtx E.G.unit0 t U ds →
+    (hq : ∀ t ∈ trees, GoodQ C E noCtx E.G.unit0 t E.G.unit0 [])
+    (hD : ∀ key n, dupGet key D = some n → ∀ t U ds ren, GoodQ C E noCtx E.G.unit0 t U ds →
       keyOf t (fvdOf ds) = (key, ren) → ren.length ≤ 1) :
     ∃ rs, Api.evalAll E (Ops.steadyOf E E.G.unit0) E.G.unit0 trees { dups := D } = .ok rs :=
-  let ⟨rs, h, _, _⟩ := C04.batch_sound hE hG (ctxOK_noCtx E) hKS hKW hA trees { dups := D } hq rfl
+  let ⟨rs, h, _, _⟩ := C04.batch_sound hE hG (ctxOK_noCtx E) hC ctxSC_noCtx
+    (fun p hp i t ht => (unitOK_unit0 E).indepFrom p hp i t (Nat.zero_le _) ht) hA trees { dups := D } hq rfl
     (C04.init_cacheOK_plain hE hG D hD)
   ⟨rs, h⟩
 
-omit hE hG hKS hKW hA in
+omit hE hG hC hA in
 /-- the error classes of the model's string entry point, for inputs that tokenize and parse: an error is
 returned exactly when the formula is not well scoped over the network's propositions (a free or re-quantified
 variable, an unknown proposition), or needs more variable sets than the graph offers -/
